@@ -53,13 +53,16 @@ Definition invb (s : st) : bool :=
   | C1 => fresh s && negb (word_eqb (w s) WC) && negb (signalled s) &&
           (match kd s with KGet => false | _ => true end)
   | CPeekHit => fresh s && word_eqb (w s) WR && negb (signalled s)
-  | CWaiting =>
+  | CWaiting | CTWaiting | CReset1 =>
       fresh s &&
       match w s with
       | WC => is_event s && negb (signalled s)
       | WR => signalled s
       | WE => false
       end
+  | CTWaitingU => fresh s && word_eqb (w s) WR && signalled s
+  | CTW0 | CTW1 => fresh s && negb (word_eqb (w s) WC) && negb (signalled s)
+  | CTRet b => fresh s && negb (word_eqb (w s) WC) && negb (signalled s) && (negb b || word_eqb (w s) WR)
   | CAttached =>
       match w s with
       | WC => fresh s && negb (is_event s) && (match kd s with KGet => false | _ => true end)
@@ -124,11 +127,12 @@ Proof. rewrite rev_app_distr. reflexivity. Qed.
 
 Lemma inv_wake s : Inv s -> Inv (wake s).
 Proof.
-  intros [Ib Il]. unfold wake. destruct (cpc s) eqn:Ec; try (split; assumption).
-  destruct (signalled s) eqn:Es; [|split; assumption].
-  split; [|exact Il].
-  unfold invb, fresh in *. simpl. rewrite Ec in Ib.
-  destruct (ppc s) as [|[|[|n]]], (slot s), (w s); simpl in *; try discriminate;
+  intros [Ib Il]. unfold wake.
+  destruct (cpc s) eqn:Ec; try (split; assumption);
+    (destruct (signalled s) eqn:Es; [|split; assumption]);
+    (split; [|exact Il]);
+    unfold invb, fresh in *; simpl; rewrite Ec in Ib;
+    destruct (ppc s) as [|[|[|n]]], (slot s), (w s); simpl in *; try discriminate;
     rewrite ?Es in *; simpl in *; split_and; try discriminate;
     repeat match goal with H : ?a = true |- context[?a] => rewrite H end; simpl; auto.
 Qed.
@@ -167,12 +171,16 @@ Ltac prep Ib :=
   case_all; rew_eqs; simpl in *; split_and; subst; simpl in *; rew_eqs; simpl in *.
 
 Ltac solve_b Ib :=
-  prep Ib; rewrite ?rev_app_one; simpl; rewrite ?oeqb_refl, ?Nat.eqb_refl; simpl;
-  try reflexivity; try discriminate; auto.
+  prep Ib; rewrite ?rev_app_one; simpl; rewrite ?oeqb_refl, ?Nat.eqb_refl, ?orb_true_r, ?andb_true_r; simpl;
+  try reflexivity; try discriminate; auto;
+  repeat match goal with b : bool |- _ => destruct b; simpl in *; try reflexivity; try discriminate end.
 
 Ltac solve_l Ib :=
   try assumption;
-  try solve [ apply Forall_app_one; [assumption|]; simpl; prep Ib; auto; try discriminate ].
+  try solve [ apply Forall_app_one; [assumption|]; simpl;
+              repeat match goal with H : Bool.eqb _ _ = true |- _ => apply Bool.eqb_prop in H end; subst;
+              prep Ib; auto; try discriminate;
+              repeat match goal with b : bool |- _ => destruct b; simpl in *; auto; try discriminate end ].
 
 Lemma inv_step_set s r s' : Inv s -> step s (ESet r) = Some s' -> Inv s'.
 Proof.
@@ -213,6 +221,11 @@ Proof.
   intros [Ib [Ig Ir]] H. destruct e; simpl in H; try discriminate.
   - (* EPeekBegin *) case_hyp H. inversion H; subst; clear H. split; [solve_b Ib|split; simpl; auto].
   - (* EWaitBegin *) case_hyp H. inversion H; subst; clear H. split; [solve_b Ib|split; simpl; auto].
+  - (* ETWaitBegin *) case_hyp H. inversion H; subst; clear H. split; [solve_b Ib|split; simpl; auto].
+  - (* ETWaitRet *) case_hyp H.
+    all: inversion H; subst; clear H.
+    all: split; [try solve [solve_b Ib]|split; simpl; auto].
+    all: solve_l Ib.
   - (* ELd C *) destruct t; [discriminate|]. unfold do_free, holds_token in H. case_hyp H.
     all: inversion H; subst; clear H.
     all: split; [try solve [solve_b Ib]|split; simpl; auto].
@@ -233,9 +246,15 @@ Proof.
   - eapply inv_step_xchg; eauto.
   - eapply inv_step_c; [apply inv_wake; exact I|exact H].
   - eapply inv_step_c; [apply inv_wake; exact I|exact H].
+  - eapply inv_step_c; [apply inv_wake; exact I|exact H].
+  - eapply inv_step_c; [apply inv_wake; exact I|exact H].
   - destruct t.
     + eapply inv_step_ldP; eauto.
-    + eapply inv_step_c; [apply inv_wake; exact I|exact H].
+    + change (step s (ELd C v)) with
+        (match cpc s with CTWaiting => step_c s (ELd C v) | _ => step_c (wake s) (ELd C v) end) in H.
+      destruct (cpc s) eqn:Ec;
+        first [ (eapply inv_step_c; [apply inv_wake; exact I|exact H])
+              | (eapply inv_step_c; [exact I|exact H]) ].
   - eapply inv_step_c; [apply inv_wake; exact I|exact H].
   - eapply inv_step_cb; eauto.
   - eapply inv_step_c; [apply inv_wake; exact I|exact H].
@@ -282,7 +301,7 @@ Lemma not_lost s : Inv s -> ppc s = 2 ->
   match cpc s with
   | CAttached => tokens s = [P]
   | CInline | CInlineT => tokens s = [C]
-  | CWaiting => signalled s = true
+  | CWaiting | CTWaiting | CReset1 | CTWaitingU => signalled s = true
   | _ => True
   end.
 Proof. intros [Ib _] Hp. prep Ib; auto; try discriminate; try lia. Qed.
